@@ -642,6 +642,8 @@ package builder
 //@   ensures@C13 err == nil ==> result0 != nil && result0.Code != nil && result1 != nil
 //@   loop@C13 1 invariant nextIDCode != nil && nextSource != nil
 //@   at call NewError#1 assert skip ==> ctx.Conf.IgnoreMissing && dynIs[*xtype.NoMatchError](err)
+// C01 (F5): a source FIELD on a mapping path is only read when it is accessible from the output package
+//@   at@C01 call Dot#1 assert !dynIs[*types.Var](sourceMatch.Obj) || xtype.Accessible(sourceMatch.Obj, ctx.OutputPackagePath)
 // C01/C14: a struct method or func field used as a source is parsed with "no source", against the OUTPUT package
 // (an unexported method of another package is rejected), and is called on the resolved source expression
 //@   at@C01,C14 call method.Parse#1 assert arg0 == types.Object(nextSource.FuncType) && arg1.OutputPackagePath == ctx.OutputPackagePath && arg1.Params == method.ParamsNone
